@@ -306,6 +306,9 @@ fn bind_group_layout_entry(
 fn storage_access(access: naga::StorageAccess) -> TokenStream {
     let is_read = access.contains(naga::StorageAccess::LOAD);
     let is_write = access.contains(naga::StorageAccess::STORE);
+    if access.contains(naga::StorageAccess::ATOMIC) {
+        return quote!(wgpu::StorageTextureAccess::Atomic);
+    }
     match (is_read, is_write) {
         (true, true) => quote!(wgpu::StorageTextureAccess::ReadWrite),
         (true, false) => quote!(wgpu::StorageTextureAccess::ReadOnly),
